@@ -507,6 +507,15 @@ func init() {
 			vh.Fail(t, vh.Failure{Property: prop, Part: "roundtrip", Signature: v.sig, Message: v.msg, Case: c})
 		}
 	})
+	vh.RegisterReplay("longstream", func(t *testing.T, raw json.RawMessage) {
+		var c rtCase
+		if err := json.Unmarshal(raw, &c); err != nil {
+			t.Fatal(err)
+		}
+		if _, v := checkRoundTrip(c); v != nil {
+			vh.Fail(t, vh.Failure{Property: prop, Part: "longstream", Signature: v.sig, Message: v.msg, Case: c})
+		}
+	})
 	vh.RegisterReplay("prefix", func(t *testing.T, raw json.RawMessage) {
 		var c prefixCase
 		if err := json.Unmarshal(raw, &c); err != nil {
@@ -552,3 +561,62 @@ func init() {
 }
 
 func TestReplay(t *testing.T) { vh.RunReplay(t) }
+
+// ---- long streams through one decoder / one encoder: state that leaks from one message into later ones
+
+func genLongStream(t *rapid.T) rtCase {
+	// a small palette of shapes that take the early-return paths of the decoder, repeated many times
+	palette := []ref.Value{ref.NullArr(), ref.NullBulk(), ref.ArrV(), ref.BulkV(nil), ref.IntV(0), ref.SimpleV(""), ref.ErrV("ERR x"),
+		ref.ArrV(ref.NullArr()), ref.ArrV(ref.NullBulk(), ref.NullArr(), ref.ArrV()), ref.ArrV(ref.ArrV(ref.ArrV(ref.NullArr(), ref.IntV(-1)))),
+		ref.ArrV(ref.BulkV([]byte("GET")), ref.BulkV([]byte("a")))}
+	for i, k := 0, rapid.IntRange(0, 3).Draw(t, "extra"); i < k; i++ {
+		palette = append(palette, gen.Value(t, "pv", rapid.IntRange(0, 4).Draw(t, "pdepth"), 40, 6))
+	}
+	// weights: a few shapes dominate each stream
+	var hot []int
+	for i, k := 0, rapid.IntRange(1, 3).Draw(t, "nhot"); i < k; i++ {
+		hot = append(hot, rapid.IntRange(0, len(palette)-1).Draw(t, "hot"))
+	}
+	n := rapid.IntRange(100, 1500).Draw(t, "n")
+	vals := make([]ref.Value, n)
+	var stream []byte
+	for i := range vals {
+		if rapid.IntRange(0, 9).Draw(t, "usehot") < 7 {
+			vals[i] = palette[hot[rapid.IntRange(0, len(hot)-1).Draw(t, "h")]]
+		} else {
+			vals[i] = palette[rapid.IntRange(0, len(palette)-1).Draw(t, "p")]
+		}
+		stream = ref.Encode(stream, vals[i])
+	}
+	var chunks []int
+	if rapid.Bool().Draw(t, "chunked") {
+		chunks = gen.Chunks(t, "ch", stream)
+	}
+	return rtCase{Values: vals, Chunks: chunks, BufSize: rapid.SampledFrom(bufSizes).Draw(t, "buf"), EncBuf: rapid.SampledFrom([]int{16, 64, 4096, 8192}).Draw(t, "encbuf")}
+}
+
+func TestLongStream(t *testing.T) {
+	rapid.Check(t, func(t *rapid.T) {
+		c := genLongStream(t)
+		_, v := checkRoundTrip(c)
+		if v != nil {
+			vh.Fail(t, vh.Failure{Property: prop, Part: "longstream", Signature: v.sig, Message: v.msg, Case: c})
+		}
+		nulls := 0
+		for _, x := range c.Values {
+			if x.K == ref.Arr && x.Null {
+				nulls++
+			}
+		}
+		vh.Rec().Case("longstream", true, vh.JSON(c))
+		if nulls >= 128 {
+			vh.Rec().Class("longstream", ">=128_null_arrays_on_one_decoder")
+		}
+		if len(c.Values) >= 1000 {
+			vh.Rec().Class("longstream", ">=1000_messages")
+		}
+		vh.Rec().Sample("longstream", false, func() interface{} {
+			return map[string]interface{}{"messages": len(c.Values), "null_arrays": nulls, "buf_size": c.BufSize, "chunks": len(c.Chunks)}
+		})
+	})
+}
